@@ -432,7 +432,7 @@ func CheckContainment(c Case, o Outcome) *Violation {
 		}
 	}
 	for i := 0; i < c.N; i++ {
-		if !c.Selected[i] {
+		if !c.Selected[i] || c.isAlias(i) {
 			continue
 		}
 		downstream := false
